@@ -1,6 +1,7 @@
 package props
 
 import (
+	"context"
 	"encoding/json"
 	"fmt"
 	"os"
@@ -45,6 +46,21 @@ func (r *Result) failf(format string, a ...any) {
 	if r.Verdict == "" {
 		r.Verdict = fmt.Sprintf(format, a...)
 	}
+}
+
+// startScoped runs a component's Start with a context of its own that is cancelled as soon as Start has
+// returned: the context handed to Start bounds the start, not the component's life.
+func startScoped(start func(context.Context) error) error {
+	ctx, cancel := context.WithTimeout(context.Background(), time.Hour)
+	defer cancel()
+	return start(ctx)
+}
+
+// startScopedIn is startScoped with a start context derived from the caller's (which may bound the start).
+func startScopedIn(parent context.Context, start func(context.Context) error) error {
+	ctx, cancel := context.WithCancel(parent)
+	defer cancel()
+	return start(ctx)
 }
 
 func (r *Result) label(l ...string) { r.Labels = append(r.Labels, l...) }
